@@ -45,7 +45,7 @@ CHEAP = ["add_to_link", "remove_from_link", "add_vertex", "unlink_from", "set_v1
 def configs(tier):
     out = []
     q = tier == "quick"
-    pools = [["DE", "UE"], ["DE", "TE"]] if q else [["DE", "UE"], ["DE", "TE"], ["UE", "UE"], ["SD", "DE"]]
+    pools = [["DE", "UE"], ["DE", "TE"]] if q else [["DE", "UE"], ["DE", "TE"], ["SD", "SU"]]
     # (a) arbitrary symbolic start state (any list order), the end / association mutators
     for pool in (pools[:1] if q else pools):
         for fam in (("set_v1", "set_v2", "unlink_from", "add_vertex") if q else CHEAP):
@@ -58,9 +58,8 @@ def configs(tier):
                 continue
             out.append({"mode": "neighbors", "state": "built", "pool": pool, "families": [fam], "filter": "none"})
     if not q:
-        for f1 in ("set_v1", "unlink_from", "add_vertex", "remove_from_link"):
-            for f2 in ("set_v2", "add_vertex", "add_to_link", "unlink"):
-                out.append({"mode": "neighbors", "state": "built", "pool": ["DE", "UE"], "families": [f1, f2], "filter": "none"})
+        for f1, f2 in (("set_v1", "set_v2"), ("unlink_from", "add_vertex"), ("remove_from_link", "add_to_link")):
+            out.append({"mode": "neighbors", "state": "built", "pool": ["DE", "UE"], "families": [f1, f2], "filter": "none"})
     # (c) a vertex without statistics record (un-pickled in a fresh interpreter): hit, miss, insert, invalidate paths
     out.append({"mode": "neighbors", "state": "built", "pool": ["DE", "UE"], "families": ["set_v2"], "filter": "none", "unreg": True})
     out.append({"mode": "neighbors", "state": "built", "pool": ["DE", "UE"], "families": ["add_to_link"], "filter": "none", "unreg": True})
